@@ -442,6 +442,8 @@ def gen_histories(seed, tier):
     kinds = 'sm'; args = 'n123'
     def ops_for(threads):
         o = []
+        for t in threads:
+            o.append('C%d%d' % (rng.randrange(10), t))      # some other (valid) library call on that thread
         for k in kinds:
             for t in threads:
                 o.append('V%s%d' % (k, t))
@@ -453,6 +455,11 @@ def gen_histories(seed, tier):
     for n in (1, 2, 3):
         for combo in itertools.product(base, repeat=n):
             hs.append(list(combo) + ['Vs0', 'Vm0'])
+    # every call of the table between a registration and the probes, on the main thread and on a fresh one
+    for j in range(10):
+        for pre in ([], ['Ss01'], ['Ss01', 'Sm02'], ['Ts03'], ['Ss0n']):
+            hs.append(pre + ['C%d0' % j, 'Vs0', 'Vm0', 'Ts01', 'Tm01', 'Ss02', 'Sm02'])
+            hs.append(pre + ['P01', 'C%d1' % j, 'Vs1', 'Vm1', 'Ts11', 'Tm11', 'Vs0', 'Vm0'])
     # random multi-thread histories; threads are created by different parents
     shapes = [['P01', 'P02'], ['P01', 'P12'], ['P01', 'P12', 'P13'], ['P01', 'P02', 'P23']]
     nrand = 1500 if tier == 'quick' else 12000
@@ -481,6 +488,7 @@ def spec_py(h):
             v = thr.get((o[1], o[2]))
             if v is None: v = glob[o[1]]
             out.append('D' if v in (None, 'n') else 'U' + v)
+        elif o[0] == 'C': out.append('-')
         else:
             for k in 'sm': thr.pop((k, o[2]), None)
             out.append('-')
